@@ -407,6 +407,7 @@ def run(repo, rep):
     _run(repo, rep)
     # the result is expressed in the natural zone of the transformed position: the automatic zone of geo2grid on the lattice
     common.zone_table_rule(repo, rep)
+    common.numeric_type_rule(repo, rep, [('geodepy.transform', 'transform_mga94_to_mga2020'), ('geodepy.transform', 'transform_mga2020_to_mga94'), ('geodepy.transform', 'conform7')])
     common.partial_call_rule(repo, rep, [('geodepy.transform', 'conform7'), ('geodepy.statistics', 'vcv_local2cart'), ('geodepy.statistics', 'vcv_cart2local'), ('geodepy.transform', 'transform_mga94_to_mga2020'), ('geodepy.transform', 'transform_mga2020_to_mga94')], 'the covariance matrices')
     # in-place array updates met while evaluating the functions above (element type follows the caller's numbers)
     common.dtype_rule(repo, rep, [('geodepy.transform', 'conform7'), ('geodepy.transform', 'transform_mga94_to_mga2020'), ('geodepy.transform', 'transform_mga2020_to_mga94'), ('geodepy.statistics', 'vcv_local2cart'), ('geodepy.statistics', 'vcv_cart2local'), ('geodepy.statistics', 'rotation_matrix')])
